@@ -4,7 +4,7 @@
    line-level interleaving semantics lts_step and a sequential reading sq_step), specification:
    C16/Spec.v.  code_now = the code in /repo (commit 7b727b3), code_before_fix / code_pre1948 =
    the wrapper before that commit / before the issue-1948 handler. *)
-From PV Require Import C16.Spec C16.Proofs Gen.C16_Tables.
+From PV Require Import Base.Bytes C16.Spec C16.Proofs Gen.C16_Tables.
 Local Open Scope nat_scope.
 
 (* ---- one thread: every history of enter / exit / nested enter / exception in the body / method
@@ -169,6 +169,41 @@ Theorem C16_attrnames_table :
      as_dict as_dict_attrnames resolve (AColl [n]) q = (q, Exc ValueError)).
 Proof. exact attrnames_table. Qed.
 Print Assumptions C16_attrnames_table.
+
+(* ---- answers are values *)
+
+(* which methods a block caches is exactly the documented set: the table of memoize_when_activated methods
+   dumped from the source on every run equals the model's four front-level keys and three memoized readers
+   (none for statm), and none of the cached methods returns a mutable container.  One more cached method in
+   the tree makes this obligation fail. *)
+Theorem C16_memoized_table :
+  memoized_front = [fkey_name FCpuTimes; fkey_name FMemInfo; fkey_name FPpid; fkey_name FUids] /\
+  memoized_platform = [bs "_parse_stat_file"; bs "_read_smaps_file"; bs "_read_status_file"] /\
+  (forall s, match reader_name s with Some n => mem_bytes n memoized_platform = memoized s | None => memoized s = false end) /\
+  (forall n, is_cached n = true -> is_mutable n = false).
+Proof. exact memoized_table. Qed.
+Print Assumptions C16_memoized_table.
+
+(* aliasing freedom, on a machine about object identity only (astep: a memoized method called in a block that
+   holds its answer hands out that very object, every other call builds a new one, the caller may mutate in
+   place any answer that is a list / dict): for every assignment of cached / mutable methods in which no cached
+   method is mutable, and every history of enter / exit / raise / calls / mutations of earlier answers, no call
+   ever hands out an object the caller has mutated -- no later answer depends on what was done to an earlier one *)
+Theorem C16_alias_free : forall cached mutable,
+  (forall n, cached n = true -> mutable n = false) ->
+  forall h, tainted (arun cached mutable h) = false.
+Proof. exact alias_free. Qed.
+Print Assumptions C16_alias_free.
+
+(* instantiated with the generated table and the list of methods returning lists / dicts *)
+Theorem C16_alias_free_now : forall h, tainted (arun is_cached is_mutable h) = false.
+Proof. exact alias_free_now. Qed.
+Print Assumptions C16_alias_free_now.
+
+Theorem C16_alias_free_refuted_if_cmdline_cached :
+  exists h, tainted (arun (fun n => bytes_eqb n (bs "cmdline")) is_mutable h) = true.
+Proof. exact alias_free_refuted_if_cmdline_cached. Qed.
+Print Assumptions C16_alias_free_refuted_if_cmdline_cached.
 
 (* ---- threads: every interleaving (any schedule, any length), any number of threads, any programs *)
 
